@@ -655,7 +655,7 @@ def _addr_form(lines, NAME, OFF, stack=None):
                 if reserved < 0:
                     st['over'] = True
                 if h.startswith('pop'):
-                    regs[l.ops[0][0]] = ('undefined', l.ops[0][0])
+                    regs[l.ops[0][0]] = ('popped',)
                 continue
             if h.startswith('data16 '):
                 h = h[7:]
@@ -716,7 +716,7 @@ def _show_val(r):
         return '<previous contents of %s>' % r[1]
     if r[0] == 'tls-addr':
         return '__tls_get_addr(%s)' % _show_val(r[1])
-    return {'tp': 'thread pointer', 'tpoff': 'x@tpoff', 'tpoff-via-got': 'x@gottpoff', 'tlsgd-arg': '&x@tlsgd', 'load-frame': 'load of off(%rbp)',
+    return {'popped': 'a value popped from the stack', 'tp': 'thread pointer', 'tpoff': 'x@tpoff', 'tpoff-via-got': 'x@gottpoff', 'tlsgd-arg': '&x@tlsgd', 'load-frame': 'load of off(%rbp)',
             'frame-addr': 'off(%rbp)', 'addr-via-got': 'GOT(x)', 'addr-pcrel': 'x(%rip)'}.get(r[0], repr(r))
 
 
